@@ -404,7 +404,7 @@ func (p *Program) verifyFuncPass(con *Contract, prev *VC) (res *funcResult) {
 			c.Cover = true
 		}
 		for _, cl := range append(con.clauses("ensures"), con.clauses("ensures_local")...) {
-			vc.oblige("post", fmt.Sprintf("%s/post[%s]", con.FuncName, clauseLabel(cl)), gRet, penv.evalBool(cl.Expr), fmt.Sprintf("%s:%d", cl.File, cl.Line))
+			vc.oblige("post", fmt.Sprintf("%s/post[%s]", con.FuncName, clauseLabel(cl)), gRet, penv.evalBool(cl.Expr), fmt.Sprintf("%s:%d", cl.File, cl.Line)).Group = cl.Group
 		}
 		// C04: no spurious dependency -- a name recorded with addDep also goes into the output (as a
 		// coq name, as an argument of a translator/printer function, or into a node of the output tree)
